@@ -36,6 +36,7 @@ def run(ctx) -> None:
     rep.rule("C14.R5", "nested pauses are re-raised path-qualified; separator agrees with PauseInfo", floor=3)
     rep.rule("C14.R6", "partial-state attribute name agrees between writer and reader", floor=1)
     rep.rule("C14.R7", "a PAUSED nested result is never consumed as data", floor=4)
+    rep.rule("C14.R9", "the pause description is built in the graph's name space: no current input name is looked up in a mapping keyed by the handler's own parameter names (or vice versa)", floor=2)
     rep.rule("C14.R8", "the pause handler always returns the PAUSED result: values computed before the pause are filtered with the non-raising policy", floor=2)
 
     pe = db.cls("runners._shared.types.PauseExecution")
@@ -302,6 +303,15 @@ def run(ctx) -> None:
                             read.add(c.args[1].value)
     ok = bool(written) and bool(read) and read <= written
     rep.add("C14.R6", "partial-state-attribute", ok, "src/hypergraph/runners/async_/runner.py:1", f"writer sets {sorted(written)}, reader gets {sorted(read)}" if ok else f"partial state attribute mismatch: writer sets {sorted(written)}, reader gets {sorted(read)} (a paused run would lose the values computed so far)")
+
+    # ---- R9 ---------------------------------------------------------------------
+    from .c06 import check_qualifiers
+
+    n_before = len(rep.obligations)
+    check_qualifiers(ctx, "C14.R9", only=("interrupt_node",))
+    if not any(o.rule == "C14.R9" for o in rep.obligations[n_before:]):
+        for q_ in ("AsyncInterruptNodeExecutor.__call__", "_call_handler"):
+            rep.ok("C14.R9", f"interrupt_node.{q_}", "src/hypergraph/runners/async_/executors/interrupt_node.py:1", "no name-space mismatch")
 
     # ---- R8 ---------------------------------------------------------------------
     from .c11 import check_handlers_filter_quietly
